@@ -1,105 +1,15 @@
-(* Pat/StickyConcat.v — C09: PConcatenate over patterns of the sticky fragment is sticky.
-   Once next() of PConcatenate([x1 .. xn]) (every xi a pattern or scalar of the fragment [fpat]) has raised
-   StopIteration, no later next() returns a value: the position stays on the last input, which has stopped and
-   is therefore quiet (Pat/StickyProofs.v).  Lemmas only; the model is Pat/Step.v. *)
-From Isobar Require Import Base.Prelude Pat.Val Pat.Syntax Pat.Step Pat.StepProofs Pat.IterProofs Pat.ResetProofs Pat.StickyProofs.
-From Coq Require Import String QArith.
+(* Pat/StickyConcat.v — C09: PConcatenate over patterns of the sticky fragment is sticky, in any state
+   (instance of Pat/StickyProofs.v [fpat_quiet] at the constructor [FP_concat]; the lemmas [concat_stop],
+   [concat_stopped_quiet] live there). *)
+From Isobar Require Import Base.Prelude Pat.Val Pat.Syntax Pat.Step Pat.StepProofs Pat.IterProofs Pat.StickyProofs.
 Open Scope Z_scope.
-
-Lemma update_nth_length {A} (l : list A) : forall i x, List.length (update_nth i x l) = List.length l.
-Proof. induction l as [|y l IH]; intros [|i] x; cbn; try reflexivity. rewrite IH. reflexivity. Qed.
-
-Lemma nth_error_update_same {A} (l : list A) : forall n a x, nth_error l n = Some a -> nth_error (update_nth n x l) n = Some x.
-Proof. induction l as [|y l IH]; intros [|n] a x H; cbn in *; try discriminate; try reflexivity. eapply IH; eauto. Qed.
-
-Lemma py_index_update_same {A} (l : list A) i a x :
-  py_index l i = Some a -> py_index (update_nth (py_index_pos l i) x l) i = Some x.
-Proof.
-  unfold py_index, py_index_pos. rewrite update_nth_length. intro H.
-  destruct ((0 <=? i) && (i <? Z.of_nat (List.length l))) eqn:E1.
-  - apply andb_true_iff in E1 as [E _]. rewrite E. eapply nth_error_update_same; eauto.
-  - destruct ((- Z.of_nat (List.length l) <=? i) && (i <? 0)) eqn:E2; [|discriminate].
-    apply andb_true_iff in E2 as [_ E]. assert (E0 : (0 <=? i) = false) by lia. rewrite E0.
-    eapply nth_error_update_same; eauto.
-Qed.
-
-Lemma Forall_update_nth {A} (P : A -> Prop) (l : list A) : forall i x, Forall P l -> P x -> Forall P (update_nth i x l).
-Proof.
-  induction l as [|y l IH]; intros [|i] x Hl Hx; cbn; try assumption; inversion Hl; subst; constructor; auto.
-Qed.
-
-Lemma py_index_Forall {A} (P : A -> Prop) (l : list A) i a : Forall P l -> py_index l i = Some a -> P a.
-Proof.
-  intros Hl Hi. rewrite Forall_forall in Hl. apply Hl.
-  unfold py_index in Hi. destruct ((0 <=? i) && (i <? Z.of_nat (List.length l))).
-  - eapply nth_error_In; eauto.
-  - destruct ((- Z.of_nat (List.length l) <=? i) && (i <? 0)); [eapply nth_error_In; eauto|discriminate].
-Qed.
 
 Section Concat.
   Variable binop : op -> val -> val -> outcome val.
   Variable LMAX : nat.
-  Notation step := (step binop LMAX).
-  Notation anext := (anext binop LMAX).
-  Notation quiet := (quiet binop LMAX).
-  Notation nquiet := (nquiet binop LMAX).
-  Notation fpat := (fpat).
   Hypothesis binop_no_stop : forall o x y, binop o x y <> Stop.
 
-  Lemma step_concat_eq f l pos :
-    step (S f) (PConcatenate (AL l) pos) =
-      match py_index l pos with
-      | None => (Raise IndexError, PConcatenate (AL l) pos)
-      | Some a =>
-          let '(o, a') := anext f a in
-          let l' := update_nth (py_index_pos l pos) a' l in
-          match o with
-          | Stop => if pos <? zlen l - 1 then step f (PConcatenate (AL l') (pos + 1)) else (Stop, PConcatenate (AL l') pos)
-          | _ => (o, PConcatenate (AL l') pos)
-          end
-      end.
-  Proof. reflexivity. Qed.
-
-  Lemma zlen_update (l : list arg) i x : zlen (update_nth i x l) = zlen l.
-  Proof. unfold zlen. rewrite update_nth_length. reflexivity. Qed.
-
-  (** the state in which PConcatenate raises StopIteration: on its last input, which has just stopped *)
-  Lemma concat_stop : forall f l pos p', Forall farg l -> step f (PConcatenate (AL l) pos) = (Stop, p') ->
-    exists l' pos' a0 a' f0, p' = PConcatenate (AL l') pos' /\ (pos' <? zlen l' - 1) = false /\
-                             py_index l' pos' = Some a' /\ farg a0 /\ anext f0 a0 = (Stop, a').
-  Proof.
-    induction f as [|f IH]; intros l pos p' Hl H; [discriminate|].
-    rewrite step_concat_eq in H. destruct (py_index l pos) as [a|] eqn:Ei; [|discriminate].
-    pose proof (py_index_Forall _ _ _ _ Hl Ei) as Fa. pose proof (farg_anext_closed binop LMAX f a Fa) as Fa'.
-    destruct (anext f a) as [o a'] eqn:Ea. cbn [snd] in Fa'. cbv zeta in H.
-    destruct o; try discriminate.
-    destruct (pos <? zlen l - 1) eqn:Epos.
-    - apply IH in H; [exact H|]. apply Forall_update_nth; assumption.
-    - inversion H; subst. exists (update_nth (py_index_pos l pos) a' l), pos, a, a', f.
-      rewrite zlen_update. repeat split; try assumption. eapply py_index_update_same; eauto.
-  Qed.
-
-  Lemma concat_stopped_quiet f pos n : forall l a, zlen l = n -> (pos <? n - 1) = false -> py_index l pos = Some a -> nquiet f a ->
-    quiet (S f) (PConcatenate (AL l) pos).
-  Proof.
-    intros l a Hn Hp Hi N.
-    apply (quiet_coind binop LMAX (S f)
-             (fun p => exists l a, p = PConcatenate (AL l) pos /\ zlen l = n /\ py_index l pos = Some a /\ nquiet f a)); [|eauto 8].
-    clear l a Hn Hi N. intros p [l [a [-> [Hn [Hi N]]]]]. rewrite step_concat_eq, Hi.
-    apply nquiet_unfold in N. destruct (anext f a) as [o a']. cbn [fst snd] in N. destruct N as [Y N]. cbv zeta.
-    assert (K : exists l0 a0, PConcatenate (AL (update_nth (py_index_pos l pos) a' l)) pos = PConcatenate (AL l0) pos /\
-                              zlen l0 = n /\ py_index l0 pos = Some a0 /\ nquiet f a0).
-    { eexists _, a'. split; [reflexivity|]. rewrite zlen_update. split; [exact Hn|]. split; [|exact N].
-      eapply py_index_update_same; eauto. }
-    destruct o; try discriminate Y; rewrite ?Hn, ?Hp; cbn [fst snd]; (split; [reflexivity|exact K]).
-  Qed.
-
-  Theorem concat_quiet f l pos p' : Forall farg l -> step f (PConcatenate (AL l) pos) = (Stop, p') ->
-    forall f2, quiet f2 p'.
-  Proof.
-    intros Hl H. destruct (concat_stop _ _ _ _ Hl H) as [l' [pos' [a0 [a' [f0 [-> [Hp [Hi [Fa0 Ea0]]]]]]]]].
-    intros [|f2]; [apply quiet_0|].
-    eapply concat_stopped_quiet; [reflexivity|exact Hp|exact Hi|].
-    eapply (proj2 (proj2 (fpat_quiet binop LMAX binop_no_stop f0))); eauto.
-  Qed.
+  Theorem concat_quiet f l pos p' : Forall farg l -> step binop LMAX f (PConcatenate (AL l) pos) = (Stop, p') ->
+    forall f2, quiet binop LMAX f2 p'.
+  Proof. intros Hl H. eapply (proj1 (fpat_quiet binop LMAX binop_no_stop f)); [apply FP_concat; exact Hl|exact H]. Qed.
 End Concat.
